@@ -25,6 +25,10 @@ CHECKS = {
          "Every structured buffer (scheme x authority x PATH(2) x query x fragment, delimiter-bearing and 40/600-byte tails, colon-first paths) x every value of the five setters incl. removal and longer/equal/shorter replacements, on RiRefBuf and RiBuf of both families (2 M cases quick): the decomposition of the new text equals the old one with the targeted component replaced, up to the three documented path adjustments each accepted only under its documented precondition; result valid; accessors read back the same.",
          "Trusted: the Appendix-B splitting model and the frame oracle c05_frame_ok (40 lines).",
          "DESIGN.md section 6, C05"),
+ "C06": ("exhaustive sweep over all (base, reference) pairs of a structured domain against a transcription of RFC 3986 5.2.2-5.2.4 + Errata 4547 + 5.3",
+         "All pairs of ~450 (quick) / ~2200 (thorough) bases (with/without/empty authority; empty, absolute, rootless paths with dot, empty and colon segments; with/without query) and 3.5-25 k references covering every branch of RFC 5.2.2 (own scheme, own authority, empty path, absolute path, relative path) with any mixture of '.', '..', empty and ordinary segments, queries and fragments: 2.3 M pairs quick, 54 M thorough, both families; resolved / resolve / into_resolved must agree; exact text equality with the RFC target when it re-parses to the same components; validity + RFC scheme/authority/query/fragment + unambiguous rendering of the RFC path otherwise; base unchanged.",
+         "Trusted: the resolution model (model/resolve.rs, 120 lines), checked on every run against the 42 examples of RFC 3986 5.4.1/5.4.2 typed in from the RFC. Leniencies: ambiguous targets and relative targets starting with an empty segment are judged up to shielding/collapsing of leading empty segments (pinned by the repository's own test `../..//` -> `http:/`).",
+         "DESIGN.md section 6, C06"),
  "C09": ("exhaustive input-space sweep of all paths up to a segment bound (+ inline-buffer threshold paths), stand-alone and embedded in every kind of reference, against a stack-walk model cross-checked with a literal RFC 3986 5.2.4 transcription",
          "Every path over the structural segment alphabet up to 6 (quick) / 8 (thorough) segments and over the full alphabet up to 4/5, plus paths of 15..40 segments and 510..2000 bytes; for each: the normalized-segment iterator (both directions, length), the normalized copy (RFC rendering incl. trailing slash, idempotence), in-place normalisation stand-alone, and embedded in 12 reference contexts with frame check (scheme, authority, query, fragment unchanged, text valid). Exhaustive inside the bound.",
          "Trusted: the stack-walk model (30 lines) and its agreement with the literal 5.2.4 algorithm on absolute paths (checked on 5460 paths by selftest); rendering rules of DESIGN 5.3 (legal '.' shield, [\"\"] identified with the empty list unless shielded).",
